@@ -8,6 +8,9 @@ Import ListNotations.
 Lemma G_status_true r : status r = true <-> r = Some true.
 Proof. destruct r as [[|]|]; simpl; split; congruence. Qed.
 
+Lemma G_some_true b : Some b = Some true <-> b = true.
+Proof. split; [intros H; injection H; auto|intros ->; reflexivity]. Qed.
+
 Lemma G_andr_true a b : andr a b = Some true <-> a = Some true /\ b = Some true.
 Proof.
   destruct a as [[|]|], b as [[|]|]; simpl; split; intros; try tauto; try congruence;
@@ -214,15 +217,17 @@ Proof.
   split; intros (H1 & H2 & H3); (split; [exact H1|split; [exact H2|]]); intros a Ha;
     specialize (H3 a Ha).
   - destruct H3 as (A1 & A2 & A3 & A4 & A5 & A6). rewrite Forall_forall in A2, A4, A6.
-    repeat split; try assumption.
+    split; [exact A1|]. split; [exact A3|]. split; [exact A5|]. split.
     + intros r Hr. apply in_app_iff in Hr. destruct Hr; auto.
-    + apply (A6 sv H).
-    + destruct (A6 sv H) as [_ Hv]. rewrite Forall_forall in Hv. exact Hv.
-  - destruct H3 as (A1 & A2 & A3 & A4 & A5). rewrite !Forall_forall.
-    repeat split; try assumption.
-    + intros r Hr. apply A4. apply in_app_iff. auto.
-    + intros r Hr. apply A4. apply in_app_iff. auto.
-    + intros sv Hs. split; [apply (A5 sv Hs)|]. rewrite Forall_forall. apply (A5 sv Hs).
+    + intros sv Hs. destruct (A6 sv Hs) as [Hv1 Hv2]. rewrite Forall_forall in Hv2.
+      split; assumption.
+  - destruct H3 as (A1 & A2 & A3 & A4 & A5).
+    split; [exact A1|]. split.
+    { rewrite Forall_forall. intros r Hr. apply A4. apply in_app_iff. auto. }
+    split; [exact A2|]. split.
+    { rewrite Forall_forall. intros r Hr. apply A4. apply in_app_iff. auto. }
+    split; [exact A3|]. rewrite Forall_forall.
+    intros sv Hs. split; [apply (A5 sv Hs)|]. rewrite Forall_forall. apply (A5 sv Hs).
 Qed.
 
 Definition walk_each (c : cbs) (p : package) : Prop :=
@@ -264,15 +269,16 @@ Proof.
   split.
   - intros (Ha & He & Hr & Ht). apply Ev in He. destruct He as [He1 He2].
     assert (H := proj1 F (conj Ha (conj Hr Ht))). clear F Ev Ha Hr Ht.
-    repeat split; try assumption; intros.
-    + apply (H k f H0).
-    + apply (H k f H0).
-    + apply (H k f H0 a H1).
-    + apply (H k f H0 a H1).
-    + apply (H k f H0 a H1).
-    + apply (H k f H0 a H1). assumption.
-    + apply (H k f H0 a H1). assumption.
-    + apply (H k f H0 a H1 ). assumption. assumption.
+    split. { intros k f Hk. destruct (H k f Hk) as (X1 & X2 & _). split; assumption. }
+    split. { intros k f Hk a Ha. destruct (H k f Hk) as (_ & _ & X).
+             destruct (X a Ha) as (Y1 & Y2 & Y3 & _). auto. }
+    split. { intros k f Hk a Ha r Hr. destruct (H k f Hk) as (_ & _ & X).
+             destruct (X a Ha) as (_ & _ & _ & Y4 & _). auto. }
+    split. { intros k f Hk a Ha sv Hs. destruct (H k f Hk) as (_ & _ & X).
+             destruct (X a Ha) as (_ & _ & _ & _ & Y5). destruct (Y5 sv Hs) as [Z _]. exact Z. }
+    split. { intros k f Hk a Ha sv Hs v Hv. destruct (H k f Hk) as (_ & _ & X).
+             destruct (X a Ha) as (_ & _ & _ & _ & Y5). destruct (Y5 sv Hs) as [_ Z]. auto. }
+    split; assumption.
   - intros (H1 & H2 & H3 & H4 & H5 & H6 & H7).
     assert (G : forall k f, fac_of p k = Some f ->
       callable (walk_nargs k) (f_params f) = true /\ botcb c k (f_bot f) = Some true /\
@@ -288,3 +294,786 @@ Proof.
     apply F in G. destruct G as (Ga & Gr & Gt).
     split; [exact Ga|]. split; [apply Ev; split; assumption|]. split; assumption.
 Qed.
+
+(* ------------------------------------------------------ rule 1 *)
+Lemma G_default_eqb_eq a b : default_eqb a b = true <-> a = b.
+Proof.
+  destruct a, b; simpl; split; intros H; try reflexivity; try discriminate.
+  - apply Z.eqb_eq in H. subst. reflexivity.
+  - inversion H. apply Z.eqb_refl.
+  - apply G_name_eqb_eq in H. subst. reflexivity.
+  - inversion H. apply G_name_eqb_refl.
+Qed.
+Lemma G_annot_eqb_eq a b : annot_eqb a b = true <-> a = b.
+Proof. destruct a, b; simpl; split; intros H; try reflexivity; try discriminate. Qed.
+
+Lemma G_zip_params e ps :
+  length ps = length e ->
+  zip_all default_eqb (map p_default e) (map p_default ps) = true ->
+  zip_all annot_eqb (map p_annot e) (map p_annot ps) = true -> ps = e.
+Proof.
+  revert ps. induction e as [|x e IH]; intros [|y ps] HL H1 H2; simpl in *; try discriminate;
+    [reflexivity|].
+  apply andb_true_iff in H1. destruct H1 as [D1 D2].
+  apply andb_true_iff in H2. destruct H2 as [A1 A2].
+  apply G_default_eqb_eq in D1. apply G_annot_eqb_eq in A1.
+  f_equal; [destruct x, y; simpl in *; congruence|].
+  apply IH; auto.
+Qed.
+
+Lemma G_zip_refl_d l : zip_all default_eqb l l = true.
+Proof. induction l; simpl; [reflexivity|]. rewrite IHl, andb_true_r. apply G_default_eqb_eq. reflexivity. Qed.
+Lemma G_zip_refl_a l : zip_all annot_eqb l l = true.
+Proof. induction l; simpl; [reflexivity|]. rewrite IHl, andb_true_r. apply G_annot_eqb_eq. reflexivity. Qed.
+
+Lemma G_sig_ok k ps : sig_ok k ps = true <-> ps = exp_sig k.
+Proof.
+  unfold sig_ok. split.
+  - destruct (Nat.eqb (length ps) (length (exp_sig k))) eqn:L; [|discriminate].
+    apply Nat.eqb_eq in L.
+    destruct (zip_all default_eqb _ _) eqn:D; [|discriminate].
+    intros A. apply G_zip_params; assumption.
+  - intros ->. rewrite Nat.eqb_refl, G_zip_refl_d. apply G_zip_refl_a.
+Qed.
+
+Lemma G_rule_01 E p : rule_01 E p = Some true <-> F01 p.
+Proof.
+  unfold rule_01, F01.
+  destruct (existsb (has_kind p) kinds) eqn:Ex; cbn [negb].
+  - apply existsb_exists in Ex. destruct Ex as [k0 [_ Hk0]].
+    split.
+    + intros H0. apply (proj1 (G_some_true _)) in H0.
+      pose proof (proj1 (forallb_forall _ _) H0) as H.
+      split; [exists k0; exact Hk0|]. intros k Hk.
+      assert (I : In k kinds) by (destruct k; simpl; tauto).
+      specialize (H k I). cbv beta in H. rewrite Hk in H. simpl in H. apply G_sig_ok. exact H.
+    + intros [_ H]. f_equal. apply (proj2 (forallb_forall _ _)). intros k _.
+      destruct (has_kind p k) eqn:Hk; simpl; [|reflexivity].
+      apply G_sig_ok. apply H. exact Hk.
+  - split; [discriminate|]. intros [[k Hk] _].
+    assert (existsb (has_kind p) kinds = true).
+    { apply existsb_exists. exists k. split; [destruct k; simpl; tauto|exact Hk]. }
+    congruence.
+Qed.
+
+Lemma G_callable_exp k : callable (walk_nargs k) (exp_sig k) = true.
+Proof. destruct k; reflexivity. Qed.
+Lemma G_callable_exp1 k : k <> KEvents -> callable 1 (exp_sig k) = true.
+Proof. destruct k; try reflexivity. congruence. Qed.
+
+Lemma G_fac_has p k f : fac_of p k = Some f -> has_kind p k = true /\ params_of p k = f_params f.
+Proof.
+  unfold has_kind, params_of. destruct k; simpl; try discriminate; intros ->; auto.
+Qed.
+
+(* the part of a walk that does not depend on the callbacks *)
+Definition walk_base (p : package) : Prop :=
+  each_fac p (fun k f => callable (walk_nargs k) (f_params f) = true) /\
+  each_alg p (fun _ a => a_deps a <> None /\ a_svs a <> None) /\
+  (forall e, p_events p = Some e -> callable 0 (ef_params e) = true).
+
+Lemma G_base_of_follows p : F01 p -> F03 p -> walk_base p.
+Proof.
+  intros [_ H1] (_ & H3 & _). repeat split.
+  - intros k f Hk. destruct (G_fac_has p k f Hk) as [A B].
+    rewrite <- B, (H1 k A). apply G_callable_exp.
+  - apply (H3 k f H a H0).
+  - apply (H3 k f H a H0).
+  - intros e He. specialize (H1 KEvents). unfold has_kind, params_of in H1. rewrite He in H1.
+    rewrite (H1 eq_refl). reflexivity.
+Qed.
+
+Lemma G_walk_each_split c p :
+  walk_each c p <->
+  walk_base p /\
+  each_fac p (fun k f => botcb c k (f_bot f) = Some true) /\
+  each_alg p (fun k a => algcb c k a = Some true) /\
+  each_ref p (fun r => ifref c r = Some true) /\
+  each_sv p (fun sv => ifsv c sv = Some true) /\
+  each_val p (fun v => ifv c v = Some true) /\
+  each_event p (fun m => ifmom c m = Some true).
+Proof.
+  unfold walk_each, walk_base, each_alg, each_fac. split.
+  - intros (H1 & H2 & H3 & H4 & H5 & H6 & H7).
+    split; [split; [|split]|split; [|split]]; try assumption.
+    + intros k f Hk. apply (H1 k f Hk).
+    + intros k f Hk a Ha. split; apply (H2 k f Hk a Ha).
+    + intros k f Hk. apply (H1 k f Hk).
+    + intros k f Hk a Ha. apply (H2 k f Hk a Ha).
+    + tauto.
+  - intros ((B1 & B2 & B3) & H1 & H2 & H3 & H4 & H5 & H7).
+    split; [|split; [|tauto]].
+    + intros k f Hk. split; [apply (B1 k f Hk)|apply (H1 k f Hk)].
+    + intros k f Hk a Ha. split; [apply (H2 k f Hk a Ha)|apply (B2 k f Hk a Ha)].
+Qed.
+
+
+Ltac each_unfold :=
+  unfold each_val, each_sv, each_ref, each_dep, each_alg, each_fac, each_event in *.
+
+Lemma G_kind_fac p k f : fac_of p k = Some f -> k <> KEvents.
+Proof. destruct k; simpl; congruence. Qed.
+
+(* ------------------------------------------------------ rule 2 *)
+Lemma G_rule_02 E p : walk_base p -> (rule_02 E p = Some true <-> F02 p).
+Proof.
+  intros B. unfold rule_02. rewrite G_walk_each, G_walk_each_split. unfold F02.
+  each_unfold. simpl. split.
+  - intros (_ & H1 & H2 & H3 & H4 & H5 & H6).
+    split; [|split; [|split; [|split; [|split]]]]; intros.
+    + specialize (H1 k f H). destruct k; apply G_some_true in H1; exact H1.
+    + specialize (H2 k f H a H0). destruct k; apply G_some_true in H2; exact H2.
+    + apply G_some_true. eapply H4; eassumption.
+    + apply G_some_true. eapply H5; eassumption.
+    + specialize (H3 k f H a H0 r H7). apply G_some_true in H3. unfold is_reftuple in H3.
+      destruct (r_lvl r); congruence.
+    + apply G_some_true. apply H6. assumption.
+  - intros (H1 & H2 & H3 & H4 & H5 & H6).
+    split; [exact B|]. split; [|split; [|split; [|split; [|split]]]]; intros.
+    + specialize (H1 k f H). destruct k; simpl; rewrite H1; reflexivity.
+    + specialize (H2 k f H a H0). destruct k; simpl; rewrite H2; reflexivity.
+    + specialize (H5 k f H a H0 r H7). unfold is_reftuple. destruct (r_lvl r); congruence.
+    + erewrite H3; eauto.
+    + erewrite H4; eauto.
+    + rewrite H6; auto.
+Qed.
+
+(* ------------------------------------------------------ rule 3 *)
+Lemma G_ver_res v : ver_res v = Some true <-> v = VerOk.
+Proof. destruct v; simpl; split; congruence. Qed.
+
+Lemma G_verify_bot b : verify_bot b = Some true <-> b_algs b <> [] /\ forallb a_isalg (b_algs b) = true.
+Proof.
+  unfold verify_bot. destruct (b_algs b) as [|x t].
+  - split; [discriminate|intros [H _]; congruence].
+  - rewrite G_some_true. split; [intros H; split; [discriminate|exact H]|tauto].
+Qed.
+
+Lemma G_cb03_alg k a :
+  cb03_alg k a = Some true <->
+  a_name a <> None /\ a_deps a <> None /\ a_svs a <> None /\ a_ver a = VerOk /\
+  forallb (dep_lvl_ok k) (deps_of a) = true /\ forallb s_issv (svs_of a) = true.
+Proof.
+  unfold cb03_alg, verify_alg, deps_of, svs_of.
+  destruct (a_name a), (a_deps a), (a_svs a); cbv beta iota;
+    try (split; [discriminate|intros (A & B & C & _); congruence]).
+  rewrite G_andr_true, G_some_true, andb_true_iff, G_ver_res.
+  split; [intros [[A B] C]|intros (_ & _ & _ & A & B & C)]; repeat split; auto; discriminate.
+Qed.
+
+Lemma G_cb03_sv sv : cb03_sv sv = Some true <-> s_name sv <> None /\ s_ver sv = VerOk.
+Proof.
+  unfold cb03_sv. destruct (s_name sv).
+  - rewrite G_ver_res. split; [intros H; split; [discriminate|exact H]|tauto].
+  - split; [discriminate|intros [H _]; congruence].
+Qed.
+
+Lemma G_rule_03 E p : walk_base p -> F02 p -> (rule_03 E p = Some true <-> F03 p).
+Proof.
+  intros B (_ & T2 & T3 & _). unfold rule_03. rewrite G_walk_each, G_walk_each_split. unfold F03.
+  each_unfold. simpl. split.
+  - intros (_ & H1 & H2 & _ & H4 & H5 & _).
+    split; [|split; [|split; [|split]]]; intros.
+    + specialize (H1 k f H). destruct k; apply G_verify_bot in H1; apply H1.
+    + specialize (H2 k f H a H0). pose proof (G_kind_fac p k f H).
+      destruct k; try congruence; apply G_cb03_alg in H2; tauto.
+    + specialize (H2 k f H a H0). pose proof (G_kind_fac p k f H).
+      destruct k; try congruence; apply G_cb03_alg in H2;
+        destruct H2 as (_ & _ & _ & _ & D & _); rewrite forallb_forall in D; auto.
+    + apply G_cb03_sv. eapply H4; eassumption.
+    + apply G_ver_res. eapply H5; eassumption.
+  - intros (H1 & H2 & H3 & H4 & H5).
+    split; [exact B|]. split; [|split; [|split; [|split; [|split]]]]; intros; try reflexivity.
+    + assert (V : verify_bot (f_bot f) = Some true).
+      { apply G_verify_bot. split; [apply (H1 k f H)|]. apply forallb_forall.
+        intros a Ha. apply (T2 k f H a Ha). }
+      destruct k; exact V.
+    + assert (V : cb03_alg k a = Some true).
+      { apply G_cb03_alg. destruct (H2 k f H a H0) as (A1 & A2 & A3 & A4).
+        repeat split; try assumption.
+        - apply forallb_forall. intros r Hr. apply (H3 k f H a H0 r Hr).
+        - apply forallb_forall. intros sv Hs. apply (T3 k f H a H0 sv Hs). }
+      pose proof (G_kind_fac p k f H). destruct k; try congruence; exact V.
+    + apply G_cb03_sv. eapply H4; eassumption.
+    + apply G_ver_res. eapply H5; eassumption.
+Qed.
+
+(* ------------------------------------------------------ rule 4 *)
+Lemma G_cb04_alg a : cb04_alg a = Some true <->
+  a_name a <> None /\ forall n, a_name a = Some n -> has_dot n = false.
+Proof.
+  unfold cb04_alg. destruct (a_name a) as [n|].
+  - rewrite G_some_true, negb_true_iff. split.
+    + intros H. split; [discriminate|]. intros m Hm. inversion Hm; subst. exact H.
+    + intros [_ H]. apply H. reflexivity.
+  - split; [discriminate|intros [H _]; congruence].
+Qed.
+Lemma G_cb04_sv a : cb04_sv a = Some true <->
+  s_name a <> None /\ forall n, s_name a = Some n -> has_dot n = false.
+Proof.
+  unfold cb04_sv. destruct (s_name a) as [n|].
+  - rewrite G_some_true, negb_true_iff. split.
+    + intros H. split; [discriminate|]. intros m Hm. inversion Hm; subst. exact H.
+    + intros [_ H]. apply H. reflexivity.
+  - split; [discriminate|intros [H _]; congruence].
+Qed.
+
+Lemma G_rule_04 E p : walk_base p -> F03 p -> (rule_04 E p = Some true <-> F04 p).
+Proof.
+  intros B (_ & T2 & _ & T4 & _). unfold rule_04. rewrite G_walk_each, G_walk_each_split.
+  unfold F04. each_unfold. simpl. split.
+  - intros (_ & _ & H2 & _ & H4 & H5 & _). split; [|split]; intros.
+    + specialize (H2 k f H a H0). destruct k; apply G_cb04_alg in H2; apply H2; assumption.
+    + specialize (H4 k f H a H0 sv H1). apply G_cb04_sv in H4. apply H4. assumption.
+    + specialize (H5 k f H a H0 sv H1 v H3). apply G_some_true in H5.
+      apply negb_true_iff in H5. exact H5.
+  - intros (H2 & H4 & H5).
+    split; [exact B|]. split; [|split; [|split; [|split; [|split]]]]; intros; try reflexivity.
+    + destruct k; reflexivity.
+    + assert (V : cb04_alg a = Some true).
+      { apply G_cb04_alg. split; [apply (T2 k f H a H0)|apply (H2 k f H a H0)]. }
+      destruct k; exact V.
+    + apply G_cb04_sv. split; [eapply T4; eassumption|eapply H4; eassumption].
+    + apply G_some_true. apply negb_true_iff. eapply H5; eassumption.
+Qed.
+
+(* ------------------------------------------------------ rule 5 *)
+Lemma G_rule_05 E p : walk_base p -> F03 p -> (rule_05 E p = Some true <-> F05 p).
+Proof.
+  intros B (_ & _ & _ & T4 & _). unfold rule_05. rewrite G_walk_each, G_walk_each_split.
+  unfold F05. each_unfold. simpl. split.
+  - intros (_ & _ & _ & _ & H4 & _). intros.
+    specialize (H4 k f H a H0 sv H1). unfold cb05_sv in H4.
+    destruct (s_items sv); [destruct (s_name sv); discriminate|discriminate].
+  - intros H4.
+    split; [exact B|]. split; [|split; [|split; [|split; [|split]]]]; intros; try reflexivity.
+    + destruct k; reflexivity.
+    + destruct k; reflexivity.
+    + specialize (H4 k f H a H0 sv H1). unfold cb05_sv.
+      destruct (s_items sv); [congruence|reflexivity].
+Qed.
+
+(* ------------------------------------------------------ rule 7 *)
+Lemma G_rule_07 E p : walk_base p -> (rule_07 E p = Some true <-> F07 p).
+Proof.
+  intros B. unfold rule_07. rewrite G_walk_each, G_walk_each_split.
+  unfold F07. each_unfold. simpl. split.
+  - intros (_ & _ & _ & _ & _ & H5 & _). intros. apply G_some_true. eapply H5; eassumption.
+  - intros H5.
+    split; [exact B|]. split; [|split; [|split; [|split; [|split]]]]; intros; try reflexivity.
+    + destruct k; reflexivity.
+    + destruct k; reflexivity.
+    + apply G_some_true. eapply H5; eassumption.
+Qed.
+
+(* ------------------------------------------------------ rule 8 *)
+Lemma G_cb08_ref r : cb08_ref r = Some true <->
+  r_lvl r <> LNone /\ r_fac r <> None /\ r_impl_ok r = true /\
+  (r_lvl r = LSv \/ r_lvl r = LV -> r_item_ok r = true) /\ (r_lvl r = LV -> r_feat r <> None).
+Proof.
+  unfold cb08_ref, isSome.
+  destruct (r_lvl r), (r_fac r), (r_impl_ok r), (r_item_ok r), (r_feat r); simpl;
+    (split;
+     [ intros H; try discriminate; repeat split; intros; try discriminate; try reflexivity;
+       try congruence; try (destruct H0; discriminate)
+     | intros (H0 & H1 & H2 & H3 & H4); try reflexivity;
+       try (specialize (H3 (or_introl eq_refl))); try (specialize (H3 (or_intror eq_refl)));
+       try (specialize (H4 eq_refl)); congruence ]).
+Qed.
+
+Lemma G_rule_08 E p : walk_base p -> F02 p -> (rule_08 E p = Some true <-> F08 p).
+Proof.
+  intros B (_ & _ & _ & _ & T5 & _). unfold rule_08. rewrite G_walk_each, G_walk_each_split.
+  unfold F08. each_unfold. simpl. split.
+  - intros (_ & _ & _ & H3 & _). intros.
+    specialize (H3 k f H a H0 r H1). apply G_cb08_ref in H3. tauto.
+  - intros H3.
+    split; [exact B|]. split; [|split; [|split; [|split; [|split]]]]; intros; try reflexivity.
+    + destruct k; reflexivity.
+    + destruct k; reflexivity.
+    + apply G_cb08_ref. split; [eapply T5; eassumption|eapply H3; eassumption].
+Qed.
+
+(* ------------------------------------------------------ rule 9 *)
+Lemma G_cb09_alg a : a_svs a <> None -> (cb09_alg a = Some true <-> svs_of a <> []).
+Proof.
+  unfold cb09_alg, svs_of. destruct (a_svs a) as [[|x t]|]; intros H.
+  - split; [discriminate|congruence].
+  - split; [discriminate|reflexivity].
+  - congruence.
+Qed.
+
+Lemma G_rule_09 E p : walk_base p -> (rule_09 E p = Some true <-> F09 p).
+Proof.
+  intros B. unfold rule_09. rewrite G_walk_each, G_walk_each_split.
+  unfold F09. pose proof B as (_ & B2 & _). each_unfold. simpl. split.
+  - intros (_ & _ & H2 & _). intros.
+    specialize (H2 k f H a H0). apply G_cb09_alg; [apply (B2 k f H a H0)|].
+    destruct k; exact H2.
+  - intros H2.
+    split; [exact B|]. split; [|split; [|split; [|split; [|split]]]]; intros; try reflexivity.
+    + destruct k; reflexivity.
+    + assert (V : cb09_alg a = Some true).
+      { apply G_cb09_alg; [apply (B2 k f H a H0)|apply (H2 k f H a H0)]. }
+      destruct k; exact V.
+Qed.
+
+(* ------------------------------------------------------ rule 10 *)
+Lemma G_moment_ok m : moment_ok m = true <-> moment_follows m.
+Proof.
+  unfold moment_ok, moment_follows.
+  destruct m as [[b|] d o w t]; destruct d, o, w, t; simpl;
+    (split; [intros H; try discriminate; intuition (try congruence; try discriminate)
+            |intros H; intuition (try congruence; try discriminate)]).
+Qed.
+
+Lemma G_rule_10 E p : walk_base p -> (rule_10 E p = Some true <-> F10 p).
+Proof.
+  intros (_ & _ & B). unfold rule_10, F10, each_event, events_of.
+  destruct (p_events p) as [e|].
+  - rewrite (B e eq_refl). cbn [negb]. rewrite G_some_true, forallb_forall.
+    split; intros H ev Hev; apply G_moment_ok; apply H; exact Hev.
+  - split; [intros _ ev []|reflexivity].
+Qed.
+
+(* ------------------------------------------------------ rule 6 *)
+Lemma G_prefixb_refl n : prefixb n n = true.
+Proof. induction n; simpl; [reflexivity|]. rewrite Nat.eqb_refl. exact IHn. Qed.
+
+Lemma G_cb06_ref E r : prefix_free E -> r_lvl r <> LNone ->
+  (cb06_ref E r = Some true <->
+   exists i k, r_fac r = Some (i, k) /\ i < length E /\ r_impl_home r = i).
+Proof.
+  intros PF L. unfold cb06_ref, pkg_name.
+  destruct (r_lvl r) eqn:Lv; try congruence;
+  (destruct (r_fac r) as [[i k]|];
+   [|split; [discriminate|intros (i & k & H & _); discriminate]];
+   destruct (nth_error E i) as [pi|] eqn:Ni;
+   [|split; [discriminate|intros (i' & k' & H & Hl & _); assert (Ei : i' = i) by congruence;
+             rewrite Ei in *; apply nth_error_None in Ni; lia]];
+   destruct (nth_error E (r_impl_home r)) as [pj|] eqn:Nj;
+   [|split; [discriminate|intros (i' & k' & H & Hl & Hh); assert (Ei : i' = i) by congruence;
+             rewrite Ei in *; rewrite Hh in Nj; congruence]];
+   rewrite G_some_true; split;
+   [intros H; exists i, k; split; [reflexivity|]; split;
+    [apply nth_error_Some; congruence|symmetry; eapply PF; eassumption]
+   |intros (i' & k' & H & Hl & Hh); assert (Ei : i' = i) by congruence; rewrite Ei in *;
+    rewrite Hh in Nj; rewrite Ni in Nj; inversion Nj; subst; apply G_prefixb_refl]).
+Qed.
+
+Lemma G_rule_06 E p : prefix_free E -> walk_base p -> F02 p ->
+  (rule_06 E p = Some true <-> F06 E p).
+Proof.
+  intros PF (B1 & B2 & _) (_ & _ & _ & _ & T5 & _). unfold rule_06, F06.
+  destruct (p_task p) as [f|] eqn:Pt; [|split; [intros _ f Hf; discriminate|reflexivity]].
+  assert (Hk : fac_of p KTask = Some f) by exact Pt.
+  rewrite (B1 KTask f Hk : callable 4 (f_params f) = true). cbn [negb].
+  rewrite G_allr_true, Forall_forall. split.
+  - intros H f' Hf' a Ha r Hr. inversion Hf'; subst f'.
+    specialize (H a Ha). unfold deps_of in Hr. destruct (a_deps a) as [ds|] eqn:D; [|destruct Hr].
+    rewrite G_allr_true, Forall_forall in H.
+    apply G_cb06_ref; [exact PF| |apply H; exact Hr].
+    apply (T5 KTask f Hk a Ha r). unfold refs_of, deps_of. rewrite D. apply in_app_iff. auto.
+  - intros H a Ha. destruct (a_deps a) as [ds|] eqn:D.
+    + rewrite G_allr_true, Forall_forall. intros r Hr.
+      apply G_cb06_ref; [exact PF| |].
+      * apply (T5 KTask f Hk a Ha r). unfold refs_of, deps_of. rewrite D. apply in_app_iff. auto.
+      * apply (H f eq_refl a Ha r). unfold deps_of. rewrite D. exact Hr.
+    + destruct (B2 KTask f Hk a Ha) as [X _]. congruence.
+Qed.
+
+(* ------------------------------------------------------ rule 11: _resolve *)
+Definition sv_named (n : name) (sv : svec) : bool :=
+  match s_name sv with Some m => name_eqb n m | None => false end.
+Definition alg_named (n : name) (a : alg) : bool :=
+  match a_name a with Some m => name_eqb m n | None => false end.
+
+Lemma G_NoDup_map_inj {A B} (f : A -> B) l x y :
+  NoDup (map f l) -> In x l -> In y l -> f x = f y -> x = y.
+Proof.
+  induction l as [|z t IH]; simpl; intros ND Hx Hy E; [destruct Hx|].
+  inversion ND as [|? ? Hn ND']; subst.
+  destruct Hx as [->|Hx], Hy as [->|Hy]; auto.
+  - exfalso. apply Hn. rewrite E. apply in_map. exact Hy.
+  - exfalso. apply Hn. rewrite <- E. apply in_map. exact Hx.
+Qed.
+
+Lemma G_set_nth_app rs x v : set_nth (length rs) (rs ++ [x]) v = rs ++ [v].
+Proof. induction rs; simpl; [reflexivity|]. rewrite IHrs. reflexivity. Qed.
+
+Lemma G_step_sv_skip it feat st sv :
+  s_name sv <> None -> sv_named (i_name it) sv = false -> step_sv it feat st sv = st.
+Proof.
+  unfold step_sv, sv_named. destruct st as [[rs idx]|]; [|reflexivity].
+  destruct (s_name sv); [|congruence]. intros _ ->. reflexivity.
+Qed.
+
+Lemma G_fold_sv_skip it feat svs st :
+  (forall sv, In sv svs -> s_name sv <> None /\ sv_named (i_name it) sv = false) ->
+  fold_left (step_sv it feat) svs st = st.
+Proof.
+  induction svs as [|a t IH]; simpl; intros H; [reflexivity|].
+  destruct (H a (or_introl eq_refl)) as [H1 H2]. rewrite G_step_sv_skip by assumption.
+  apply IH. intros sv Hs. apply H. right. exact Hs.
+Qed.
+
+Lemma G_fold_sv it feat svs rs idx :
+  (forall sv, In sv svs -> s_name sv <> None) -> NoDup (map s_name svs) ->
+  fold_left (step_sv it feat) svs (Some (rs, idx)) =
+  match find (sv_named (i_name it)) svs with
+  | None => Some (rs, idx)
+  | Some sv => Some (set_nth idx rs true ++ [feat_in feat sv], S idx)
+  end.
+Proof.
+  revert rs idx. induction svs as [|a t IH]; intros rs idx Hn ND; cbn [fold_left find];
+    [reflexivity|].
+  inversion ND as [|? ? Hnot ND']; subst.
+  destruct (sv_named (i_name it) a) eqn:M.
+  - assert (S1 : step_sv it feat (Some (rs, idx)) a
+                 = Some (set_nth idx rs true ++ [feat_in feat a], S idx)).
+    { unfold step_sv. unfold sv_named in M. destruct (s_name a); [|discriminate].
+      rewrite M. reflexivity. }
+    rewrite S1. unfold sv_named in M. destruct (s_name a) as [m|] eqn:Na; [|discriminate].
+    apply G_fold_sv_skip. intros sv Hs. split; [apply Hn; right; exact Hs|].
+    unfold sv_named. destruct (s_name sv) as [m'|] eqn:Ns; [|reflexivity].
+    destruct (name_eqb (i_name it) m') eqn:M'; [|reflexivity].
+    apply G_name_eqb_eq in M. apply G_name_eqb_eq in M'. subst.
+    exfalso. apply Hnot. rewrite <- Ns. apply in_map. exact Hs.
+  - rewrite G_step_sv_skip; [|apply Hn; left; reflexivity|exact M].
+    apply IH; [intros sv Hs; apply Hn; right; exact Hs|exact ND'].
+Qed.
+
+Definition vb (svs : list svec) (v : iteminfo * option name) : bool :=
+  match find (sv_named (i_name (fst v))) svs with
+  | None => false
+  | Some sv => feat_in (snd v) sv
+  end.
+
+Lemma G_fold_vref svs vs : 
+  (forall sv, In sv svs -> s_name sv <> None) -> NoDup (map s_name svs) ->
+  forall rs idx, length rs = S idx ->
+  exists rs' idx', fold_left (step_vref (Some svs)) vs (Some (rs, idx)) = Some (rs', idx') /\
+    length rs' = S idx' /\
+    forallb (fun b => b) rs' = forallb (fun b => b) rs && forallb (vb svs) vs.
+Proof.
+  intros Hn ND. induction vs as [|v t IH]; intros rs idx L; simpl.
+  - exists rs, idx. rewrite andb_true_r. auto.
+  - rewrite (G_fold_sv (fst v) (snd v) svs (rs ++ [false]) (S idx) Hn ND).
+    unfold vb at 1. destruct (find (sv_named (i_name (fst v))) svs) as [sv|].
+    + rewrite <- L, G_set_nth_app.
+      destruct (IH ((rs ++ [true]) ++ [feat_in (snd v) sv]) (S (length rs))) as (rs' & idx' & F & L' & B).
+      { rewrite !app_length. simpl. lia. }
+      exists rs', idx'. split; [exact F|]. split; [exact L'|].
+      rewrite B, !forallb_app. simpl. rewrite !andb_true_r, andb_assoc. reflexivity.
+    + destruct (IH (rs ++ [false]) (S idx)) as (rs' & idx' & F & L' & B).
+      { rewrite app_length. simpl. lia. }
+      exists rs', idx'. split; [exact F|]. split; [exact L'|].
+      rewrite B, forallb_app. simpl. rewrite andb_false_r. reflexivity.
+Qed.
+
+Lemma G_step_alg_skip r st a :
+  a_name a <> None -> alg_named (r_impl_name r) a = false -> step_alg r st a = st.
+Proof.
+  unfold step_alg, alg_named. destruct st as [[rs idx]|]; [|reflexivity].
+  destruct (a_name a); [|congruence]. intros _ ->. reflexivity.
+Qed.
+
+Lemma G_fold_alg_skip r l st :
+  (forall a, In a l -> a_name a <> None /\ alg_named (r_impl_name r) a = false) ->
+  fold_left (step_alg r) l st = st.
+Proof.
+  induction l as [|a t IH]; simpl; intros H; [reflexivity|].
+  destruct (H a (or_introl eq_refl)) as [H1 H2]. rewrite G_step_alg_skip by assumption.
+  apply IH. intros x Hx. apply H. right. exact Hx.
+Qed.
+
+Lemma G_fold_alg r l :
+  (forall a, In a l -> a_name a <> None) -> NoDup (map a_name l) ->
+  fold_left (step_alg r) l (Some ([false], 0)) =
+  match find (alg_named (r_impl_name r)) l with
+  | None => Some ([false], 0)
+  | Some a => fold_left (step_vref (a_svs a)) (expand r) (Some ([true], 0))
+  end.
+Proof.
+  induction l as [|a t IH]; intros Hn ND; cbn [fold_left find]; [reflexivity|].
+  inversion ND as [|? ? Hnot ND']; subst.
+  destruct (alg_named (r_impl_name r) a) eqn:M.
+  - assert (S1 : step_alg r (Some ([false], 0)) a
+                 = fold_left (step_vref (a_svs a)) (expand r) (Some ([true], 0))).
+    { unfold step_alg. unfold alg_named in M. destruct (a_name a); [|discriminate].
+      rewrite M. reflexivity. }
+    rewrite S1. unfold alg_named in M. destruct (a_name a) as [m|] eqn:Na; [|discriminate].
+    apply G_fold_alg_skip. intros x Hx. split; [apply Hn; right; exact Hx|].
+    unfold alg_named. destruct (a_name x) as [m'|] eqn:Nx; [|reflexivity].
+    destruct (name_eqb m' (r_impl_name r)) eqn:M'; [|reflexivity].
+    apply G_name_eqb_eq in M. apply G_name_eqb_eq in M'. subst.
+    exfalso. apply Hnot. rewrite <- Nx. apply in_map. exact Hx.
+  - rewrite G_step_alg_skip; [|apply Hn; left; reflexivity|exact M].
+    apply IH; [intros x Hx; apply Hn; right; exact Hx|exact ND'].
+Qed.
+
+Lemma G_feat_in feat sv :
+  feat_in feat sv = true <-> exists ft v, feat = Some ft /\ In v (s_items sv) /\ v_key v = ft.
+Proof.
+  unfold feat_in. destruct feat as [k|].
+  - rewrite existsb_exists. split.
+    + intros (v & Hv & E). apply G_name_eqb_eq in E. exists k, v. auto.
+    + intros (ft & v & E & Hv & K). inversion E; subst. exists v. split; [exact Hv|].
+      apply G_name_eqb_refl.
+  - split; [discriminate|intros (ft & v & E & _); discriminate].
+Qed.
+
+Lemma G_vb svs v :
+  (forall sv, In sv svs -> s_name sv <> None) -> NoDup (map s_name svs) ->
+  (vb svs v = true <->
+   exists sv ft x, In sv svs /\ s_name sv = Some (i_name (fst v)) /\ snd v = Some ft /\
+                   In x (s_items sv) /\ v_key x = ft).
+Proof.
+  intros Hn ND. unfold vb. split.
+  - destruct (find (sv_named (i_name (fst v))) svs) as [sv|] eqn:F; [|discriminate].
+    apply find_some in F. destruct F as [Hin M]. unfold sv_named in M.
+    destruct (s_name sv) as [m|] eqn:Ns; [|discriminate]. apply G_name_eqb_eq in M. subst m.
+    intros Hf. apply G_feat_in in Hf. destruct Hf as (ft & x & A & B & C).
+    exists sv, ft, x. auto.
+  - intros (sv & ft & x & Hin & Ns & A & B & C).
+    destruct (find (sv_named (i_name (fst v))) svs) as [sv'|] eqn:F.
+    + apply find_some in F. destruct F as [Hin' M]. unfold sv_named in M.
+      destruct (s_name sv') as [m|] eqn:Ns'; [|discriminate]. apply G_name_eqb_eq in M. subst m.
+      assert (sv' = sv).
+      { apply (G_NoDup_map_inj s_name svs); auto. congruence. }
+      subst sv'. apply G_feat_in. exists ft, x. auto.
+    + exfalso. apply (find_none _ _ F sv) in Hin. unfold sv_named in Hin. rewrite Ns in Hin.
+      rewrite G_name_eqb_refl in Hin. discriminate.
+Qed.
+
+Definition named_fac (f : factory) : Prop :=
+  (forall a, In a (b_algs (f_bot f)) ->
+     a_name a <> None /\ a_svs a <> None /\ NoDup (map s_name (svs_of a)) /\
+     forall sv, In sv (svs_of a) -> s_name sv <> None) /\
+  NoDup (map a_name (b_algs (f_bot f))) /\ callable 1 (f_params f) = true.
+
+Lemma G_resolve_alg r a :
+  a_svs a <> None -> NoDup (map s_name (svs_of a)) ->
+  (forall sv, In sv (svs_of a) -> s_name sv <> None) ->
+  exists rs idx, fold_left (step_vref (a_svs a)) (expand r) (Some ([true], 0)) = Some (rs, idx) /\
+    (forallb (fun b => b) rs = true <->
+     forall it feat, In (it, feat) (expand r) ->
+       exists sv ft v, In sv (svs_of a) /\ s_name sv = Some (i_name it) /\
+                       feat = Some ft /\ In v (s_items sv) /\ v_key v = ft).
+Proof.
+  intros Hs ND Hn. unfold svs_of in *. destruct (a_svs a) as [svs|]; [|congruence].
+  destruct (G_fold_vref svs (expand r) Hn ND [true] 0 eq_refl) as (rs & idx & F & _ & B).
+  exists rs, idx. split; [exact F|]. rewrite B. simpl. rewrite forallb_forall. split.
+  - intros H it feat Hin. apply (G_vb svs (it, feat) Hn ND). apply H. exact Hin.
+  - intros H [it feat] Hin. apply (G_vb svs (it, feat) Hn ND). apply H. exact Hin.
+Qed.
+
+Lemma G_resolve E r : r_lvl r <> LNone ->
+  (forall i k f, factory_at E i k = Some f -> named_fac f) ->
+  (resolve E r = Some true <-> resolves E r).
+Proof.
+  intros L NF. unfold resolve, resolves.
+  destruct (r_lvl r) eqn:Lv; try congruence;
+  (destruct (r_fac r) as [[i k]|];
+   [|split; [discriminate|intros (i & k & f & a & H & _); discriminate]];
+   destruct (factory_at E i k) as [f|] eqn:Fa;
+   [|split; [discriminate|intros (i' & k' & f & a & H & H' & _); inversion H; subst; congruence]];
+   destruct (NF i k f Fa) as (N1 & N2 & N3); rewrite N3; cbn [negb];
+   rewrite G_fold_alg by (try exact N2; intros a Ha; apply (N1 a Ha));
+   destruct (find (alg_named (r_impl_name r)) (b_algs (f_bot f))) as [a|] eqn:Fi;
+   [ apply find_some in Fi; destruct Fi as [Hin M]; unfold alg_named in M;
+     destruct (a_name a) as [m|] eqn:Na; [|discriminate]; apply G_name_eqb_eq in M; subst m;
+     destruct (N1 a Hin) as (_ & S1 & S2 & S3);
+     destruct (G_resolve_alg r a S1 S2 S3) as (rs & idx & F & B); rewrite F, G_some_true, B;
+     split;
+     [ intros H; exists i, k, f, a; repeat split; auto
+     | intros (i' & k' & f' & a' & H1 & H2 & H3 & H4 & H5);
+       assert (i' = i /\ k' = k) as [Ei Ek] by (split; congruence); rewrite Ei, Ek in *;
+       assert (f' = f) by congruence; subst f';
+       assert (a' = a) by (apply (G_NoDup_map_inj a_name (b_algs (f_bot f))); auto; congruence);
+       subst a'; exact H5 ]
+   | split; [discriminate|];
+     intros (i' & k' & f' & a' & H1 & H2 & H3 & H4 & H5);
+     assert (i' = i /\ k' = k) as [Ei Ek] by (split; congruence); rewrite Ei, Ek in *;
+     assert (f' = f) by congruence; subst f';
+     apply (find_none _ _ Fi a') in H3; unfold alg_named in H3; rewrite H4 in H3;
+     rewrite G_name_eqb_refl in H3; discriminate ]).
+Qed.
+
+Lemma G_rule_11 E p :
+  (forall i k f, factory_at E i k = Some f -> named_fac f) ->
+  walk_base p -> F02 p -> (rule_11 E p = Some true <-> F11 E p).
+Proof.
+  intros NF B (_ & _ & _ & _ & T5 & _). unfold rule_11. rewrite G_walk_each, G_walk_each_split.
+  unfold F11. each_unfold. simpl. split.
+  - intros (_ & _ & _ & H3 & _). intros.
+    apply G_resolve; [eapply T5; eassumption|exact NF|eapply H3; eassumption].
+  - intros H3.
+    split; [exact B|]. split; [|split; [|split; [|split; [|split]]]]; intros; try reflexivity.
+    + destruct k; reflexivity.
+    + destruct k; reflexivity.
+    + apply G_resolve; [eapply T5; eassumption|exact NF|eapply H3; eassumption].
+Qed.
+
+Lemma G_verify_pkg_iff E p :
+  verify_pkg E p = true <->
+  rule_01 E p = Some true /\ rule_02 E p = Some true /\ rule_03 E p = Some true /\
+  rule_04 E p = Some true /\ rule_05 E p = Some true /\ rule_06 E p = Some true /\
+  rule_07 E p = Some true /\ rule_08 E p = Some true /\ rule_09 E p = Some true /\
+  rule_10 E p = Some true /\ rule_11 E p = Some true.
+Proof.
+  unfold verify_pkg, outcomes, rules. cbn [map forallb].
+  rewrite !andb_true_iff, !G_status_true. tauto.
+Qed.
+
+Lemma G_named_of E :
+  (forall p, In p E -> F01 p /\ F03 p /\ uniq_pkg p) ->
+  forall i k f, factory_at E i k = Some f -> named_fac f.
+Proof.
+  intros H i k f Fa. unfold factory_at in Fa.
+  destruct (nth_error E i) as [p|] eqn:N; [|discriminate].
+  apply nth_error_In in N. destruct (H p N) as ((_ & F1) & (_ & F3a & _ & F3s & _) & (U1 & U2)).
+  each_unfold. split; [|split].
+  - intros a Ha. destruct (F3a k f Fa a Ha) as (A1 & _ & A3 & _).
+    split; [exact A1|]. split; [exact A3|]. split; [apply (U2 k f Fa a Ha)|].
+    intros sv Hs. apply (F3s k f Fa a Ha sv Hs).
+  - apply (U1 k f Fa).
+  - destruct (G_fac_has p k f Fa) as [A B]. rewrite <- B, (F1 k A).
+    apply G_callable_exp1. eapply G_kind_fac. exact Fa.
+Qed.
+
+(* what the first ten rules give for one package *)
+Lemma G_sound_pkg E p : prefix_free E -> verify_pkg E p = true ->
+  F01 p /\ F02 p /\ F03 p /\ F04 p /\ F05 p /\ F06 E p /\ F07 p /\ F08 p /\ F09 p /\ F10 p /\
+  walk_base p.
+Proof.
+  intros PF V. apply G_verify_pkg_iff in V.
+  destruct V as (R1 & R2 & R3 & R4 & R5 & R6 & R7 & R8 & R9 & R10 & R11).
+  assert (B : walk_base p).
+  { unfold rule_02 in R2. apply G_walk_each in R2. apply G_walk_each_split in R2. apply R2. }
+  assert (F1 : F01 p) by (apply (G_rule_01 E); exact R1).
+  assert (F2 : F02 p) by (apply (G_rule_02 E p B); exact R2).
+  assert (F3 : F03 p) by (apply (G_rule_03 E p B F2); exact R3).
+  split; [exact F1|]. split; [exact F2|]. split; [exact F3|].
+  split; [apply (G_rule_04 E p B F3); exact R4|].
+  split; [apply (G_rule_05 E p B F3); exact R5|].
+  split; [apply (G_rule_06 E p PF B F2); exact R6|].
+  split; [apply (G_rule_07 E p B); exact R7|].
+  split; [apply (G_rule_08 E p B F2); exact R8|].
+  split; [apply (G_rule_09 E p B); exact R9|].
+  split; [apply (G_rule_10 E p B); exact R10|exact B].
+Qed.
+
+Theorem G_sound E : uniq E -> prefix_free E -> gate E = true -> follows_obs E.
+Proof.
+  intros U PF G. unfold gate in G. rewrite forallb_forall in G.
+  assert (NF : forall i k f, factory_at E i k = Some f -> named_fac f).
+  { apply G_named_of. intros p Hp. destruct (G_sound_pkg E p PF (G p Hp)) as (F1 & _ & F3 & _).
+    split; [exact F1|]. split; [exact F3|apply U; exact Hp]. }
+  intros p Hp. pose proof (G p Hp) as V.
+  destruct (G_sound_pkg E p PF V) as (F1 & F2 & F3 & F4 & F5 & F6 & F7 & F8 & F9 & F10 & B).
+  unfold follows_obs_pkg.
+  split; [exact F1|]. split; [exact F2|]. split; [exact F3|]. split; [exact F4|].
+  split; [exact F5|]. split; [exact F6|]. split; [exact F7|]. split; [exact F8|].
+  split; [exact F9|]. split; [exact F10|].
+  apply (G_rule_11 E p NF B F2). apply G_verify_pkg_iff in V. apply V.
+Qed.
+
+Theorem G_complete E : uniq E -> prefix_free E -> follows_obs E -> gate E = true.
+Proof.
+  intros U PF F. unfold gate. apply forallb_forall. intros p Hp.
+  assert (NF : forall i k f, factory_at E i k = Some f -> named_fac f).
+  { apply G_named_of. intros q Hq. destruct (F q Hq) as (F1 & _ & F3 & _).
+    split; [exact F1|]. split; [exact F3|apply U; exact Hq]. }
+  destruct (F p Hp) as (F1 & F2 & F3 & F4 & F5 & F6 & F7 & F8 & F9 & F10 & F11).
+  pose proof (G_base_of_follows p F1 F3) as B.
+  apply G_verify_pkg_iff.
+  split; [apply G_rule_01; exact F1|].
+  split; [apply (G_rule_02 E p B); exact F2|].
+  split; [apply (G_rule_03 E p B F2); exact F3|].
+  split; [apply (G_rule_04 E p B F3); exact F4|].
+  split; [apply (G_rule_05 E p B F3); exact F5|].
+  split; [apply (G_rule_06 E p PF B F2); exact F6|].
+  split; [apply (G_rule_07 E p B); exact F7|].
+  split; [apply (G_rule_08 E p B F2); exact F8|].
+  split; [apply (G_rule_09 E p B); exact F9|].
+  split; [apply (G_rule_10 E p B); exact F10|].
+  apply (G_rule_11 E p NF B F2); exact F11.
+Qed.
+
+(* ------------------------------------------- consequences / witnesses *)
+Theorem G_fault_rejected E : uniq E -> prefix_free E ->
+  (exists p, In p E /\ ~ follows_obs_pkg E p) -> gate E = false.
+Proof.
+  intros U PF (p & Hp & Hn). destruct (gate E) eqn:G; [|reflexivity].
+  exfalso. apply Hn. apply (G_sound E U PF G p Hp).
+Qed.
+
+(* the node Construct._feedback looks up in _flat exists: it is produced by
+   _build_tree from the factory's bot *)
+Definition flat_has (E : engine) (i : nat) (k : kind) (an svn ft : name) : Prop :=
+  exists f a sv v, factory_at E i k = Some f /\ In a (b_algs (f_bot f)) /\
+    a_name a = Some an /\ In sv (svs_of a) /\ s_name sv = Some svn /\
+    In v (s_items sv) /\ v_key v = ft.
+
+Theorem G_lookups_total E : uniq E -> prefix_free E -> gate E = true ->
+  forall p, In p E -> forall k f, fac_of p k = Some f -> forall a, In a (b_algs (f_bot f)) ->
+  forall r, In r (refs_of a) -> forall it feat, In (it, feat) (expand r) ->
+  exists i k' ft, r_fac r = Some (i, k') /\ feat = Some ft /\
+                  flat_has E i k' (r_impl_name r) (i_name it) ft.
+Proof.
+  intros U PF G p Hp k f Hf a Ha r Hr it feat Hin.
+  destruct (G_sound E U PF G p Hp) as (_ & _ & _ & _ & _ & _ & _ & _ & _ & _ & F11).
+  destruct (F11 k f Hf a Ha r Hr) as (i & k' & f' & a' & R1 & R2 & R3 & R4 & R5).
+  destruct (R5 it feat Hin) as (sv & ft & v & S1 & S2 & S3 & S4 & S5).
+  exists i, k', ft. split; [exact R1|]. split; [exact S3|].
+  exists f', a', sv, v. auto 10.
+Qed.
+
+Module GateWitness.
+  Import GateExamples.
+  (* algorithm "r" of the regress-only package, run() left abstract *)
+  Definition A_norun := mkAlg true (Some [114]) VerOk (Some [R_up]) [] (Some [SV]) false.
+  Definition P_norun := mkPkg [114;111] None None
+                       (Some (mkFac (exp_sig KRegress) (mkBot true [A_norun]))) None.
+  Definition E_norun := [P_up; P_norun].
+
+  Lemma accepted : gate E_norun = true.
+  Proof. vm_compute. reflexivity. Qed.
+
+  Lemma not_follows : ~ follows E_norun.
+  Proof.
+    intros [_ H]. specialize (H P_norun (or_intror (or_introl eq_refl))).
+    destruct H as [H _]. specialize (H KRegress _ eq_refl A_norun (or_introl eq_refl)).
+    discriminate H.
+  Qed.
+
+  Lemma uniq_E : uniq E.
+  Proof.
+    intros p [<-|[<-|[]]]; split; intros k f Hk; destruct k; simpl in Hk; try discriminate;
+      inversion Hk; subst; simpl.
+    - repeat constructor; simpl; intuition discriminate.
+    - intros a [<-|[]]. simpl. repeat constructor; simpl; intuition discriminate.
+    - repeat constructor; simpl; intuition discriminate.
+    - intros a [<-|[]]. simpl. repeat constructor; simpl; intuition discriminate.
+  Qed.
+
+  Lemma prefix_free_E : prefix_free E.
+  Proof.
+    intros i j pi pj Hi Hj Hp.
+    destruct i as [|[|i]], j as [|[|j]]; simpl in *; try reflexivity;
+      try (destruct i; discriminate); try (destruct j; discriminate);
+      inversion Hi; inversion Hj; subst; simpl in Hp; discriminate.
+  Qed.
+
+  Lemma follows_E : follows E.
+  Proof.
+    split.
+    - apply G_sound; [exact uniq_E|exact prefix_free_E|exact now_accepts_regress_only].
+    - intros p [<-|[<-|[]]]; (split; [|split]); intros k f Hk; destruct k; simpl in Hk;
+        try discriminate; inversion Hk; subst; simpl;
+        intros a [<-|[]]; simpl; try reflexivity;
+        intros sv [<-|[]]; simpl; try reflexivity;
+        intros v [<-|[]]; reflexivity.
+  Qed.
+End GateWitness.
